@@ -109,6 +109,33 @@ def run(ctx):
             ctx.fail("a source document does not deserialize into the generated root type", case, detail,
                      known=reason(s, nd, mb))
     ctx.notes["quick"] = stats
+    # member names outside printable ASCII (outside the modelled domain of convert_case): implementation-side
+    # oracle only.  The generator emits no #[serde(rename)], so a source member deserializes only into a field
+    # of exactly its name: every top-level member name of a source whose name is already lower-case snake_case
+    # (letters / digits / underscore in the Unicode sense) must be a field of the root struct.
+    na_sets = [['{"größe":1.5,"naïve_name":"x","ширина":true,"plain_key":2}'], ['{"日本":1,"été":[1,2]}', '{"日本":2}'],
+               ['{"ключ_два":{"вложенный":1},"id":1}'], ['{"αβγ":null,"x":1}', '{"αβγ":"s","x":2}'], ['[{"ß":1},{"ß":2,"ü":"x"}]']]
+    inf_na, _ = genlib.infer051(ctx, na_sets)
+    txt_na = ctx.impl(["gen_render\t" + sh_str(s_) if s_ is not None else "gen_render\tN" for s_ in inf_na])
+    n_na = 0
+    for ss, s_, r in zip(na_sets, inf_na, txt_na):
+        if s_ is None:
+            continue
+        try:
+            its = genlib.parse_items(genlib.text_of(r))
+        except (genlib.ParseError, TypeError) as e:
+            ctx.fail("generated text for non-ASCII member names does not parse as items", "gen_render\t" + sh_str(s_), str(e)); continue
+        fields = {f for it in its if it[0] == 'S' for f, _ in it[2]}
+        for t in ss:
+            doc = json.loads(t)
+            objs = [doc] if isinstance(doc, dict) else [x for x in doc if isinstance(x, dict)]
+            for o in objs:
+                for k in o:
+                    n_na += 1
+                    if k == k.lower() and all(ch == "_" or ch.isalnum() for ch in k) and k not in fields:
+                        ctx.fail("a source member has no field of its name in the generated types (no serde rename is emitted): it cannot deserialize / round-trip",
+                                 "gen_render\t" + sh_str(s_), {"member": k, "fields": sorted(fields)[:12], "source": t[:200]})
+    ctx.notes["non_ascii_member_names_checked"] = n_na
     if ctx.tier != "quick":
         run_batches(ctx, cases, ts, mi, items, encs, compiles, cls)
 
